@@ -103,6 +103,38 @@ def inputs(ctx):
                                                             {"tc": _tc(b), "drop": drop, "syms": [{"k": "EDM"}]}],
                                 "doubled": doubled, "offset": 0})
                     n += 1
+    # an offset that is exactly the first caption's start (the caption then starts at 0 and is still a
+    # caption), and a caption shown for a frame or two followed by a last caption that is never erased
+    for dbl in (False, True):
+        words = 3 * (2 if dbl else 1) + 1
+        for first_eoc, off in ((930, 31), (900, 30), (1800, 60), (930, 30.5)):
+            body = [{"k": "ENM"}, {"k": "RCL"}] + _load(rng, 14, 0) + [{"k": "EOC"}]
+            body2 = [{"k": "ENM"}, {"k": "RCL"}] + _load(rng, 2, 0) + [{"k": "EOC"}]
+            for tail in ("erased", "open"):
+                lines = [{"tc": _tc(first_eoc - words), "drop": True, "syms": body},
+                         {"tc": _tc(first_eoc + 45), "drop": True, "syms": [{"k": "EDM"}]},
+                         {"tc": _tc(first_eoc + 200 - words), "drop": True, "syms": body2}]
+                if tail == "erased":
+                    lines.append({"tc": _tc(first_eoc + 260), "drop": True, "syms": [{"k": "EDM"}]})
+                ins.append({"id": "o%d" % n, "lines": lines, "doubled": dbl, "offset": off})
+                n += 1
+        for short in (1, 2):
+            for drop in (False, True):
+                for order in ("flash-first", "flash-second"):
+                    a = [{"k": "ENM"}, {"k": "RCL"}] + _load(rng, 14, 0) + [{"k": "EOC"}]
+                    b = [{"k": "ENM"}, {"k": "RCL"}] + _load(rng, 2, 0) + [{"k": "EOC"}]
+                    if order == "flash-first":
+                        lines = [{"tc": _tc(900 - words), "drop": drop, "syms": a},
+                                 {"tc": _tc(900 + short), "drop": drop, "syms": [{"k": "EDM"}]},
+                                 {"tc": _tc(1100 - words), "drop": drop, "syms": b}]
+                    else:
+                        lines = [{"tc": _tc(900 - words), "drop": drop, "syms": a},
+                                 {"tc": _tc(1000), "drop": drop, "syms": [{"k": "EDM"}]},
+                                 {"tc": _tc(1100 - words), "drop": drop, "syms": b},
+                                 {"tc": _tc(1100 + short), "drop": drop, "syms": [{"k": "EDM"}]},
+                                 {"tc": _tc(1300 - words), "drop": drop, "syms": a}]
+                    ins.append({"id": "o%d" % n, "lines": lines, "doubled": dbl, "offset": 0})
+                    n += 1
     for k in range(400 if ctx.quick else 60000):
         lines = sccgen.popon_program(rng, drop=None)
         # move the program to a random hour
